@@ -376,22 +376,83 @@ pub open spec fn strictly_ascending(ids: Seq<u32>) -> bool {
     forall|i: int, j: int| 0 <= i < j < ids.len() ==> ids[i] < ids[j]
 }
 
-/// ASSUMED contract of session::consecutive_chunk_indices (iterator-adapter chain, outside the Verus subset;
-/// checked bounded on the real function by the Kani harness `cci_contract`): ascending positions p in 1..len
-/// such that ids[p] is not the successor of ids[p-1] -- exactly those.
-pub uninterp spec fn chunk_positions(ids: Seq<u32>) -> Seq<usize>;
+/// the positions at which a new run of consecutive ids starts: ascending p in 1..len such that ids[p] is not the successor of ids[p-1]
+pub open spec fn cp_upto(ids: Seq<u32>, w: int) -> Seq<usize>
+    decreases w,
+{
+    if w <= 0 { Seq::<usize>::empty() } else {
+        let prev = cp_upto(ids, w - 1);
+        if ids[w] - ids[w - 1] != 1 { prev.push(w as usize) } else { prev }
+    }
+}
+#[verifier::opaque]
+pub open spec fn chunk_positions(ids: Seq<u32>) -> Seq<usize> { cp_upto(ids, ids.len() - 1) }
 pub open spec fn chunk_positions_ok(ci: Seq<usize>, ids: Seq<u32>) -> bool {
     &&& (forall|k: int| 0 <= k < ci.len() ==> 0 < #[trigger] ci[k] < ids.len())
     &&& (forall|i: int, j: int| 0 <= i < j < ci.len() ==> ci[i] < ci[j])
     &&& (forall|p: int| 0 < p < ids.len() ==> (ci.contains(p as usize) <==> (#[trigger] ids[p]) - ids[p - 1] != 1))
 }
+pub proof fn lemma_cp_upto(ids: Seq<u32>, w: int)
+    requires 0 <= w < ids.len() || (w == 0 && ids.len() == 0), w <= usize::MAX,
+    ensures
+        forall|k: int| 0 <= k < cp_upto(ids, w).len() ==> 0 < #[trigger] cp_upto(ids, w)[k] <= w,
+        forall|i: int, j: int| 0 <= i < j < cp_upto(ids, w).len() ==> cp_upto(ids, w)[i] < cp_upto(ids, w)[j],
+        forall|p: int| 0 < p <= w ==> (cp_upto(ids, w).contains(p as usize) <==> (#[trigger] ids[p]) - ids[p - 1] != 1),
+    decreases w,
+{
+    if w > 0 {
+        lemma_cp_upto(ids, w - 1);
+        let prev = cp_upto(ids, w - 1);
+        let cur = cp_upto(ids, w);
+        if ids[w] - ids[w - 1] != 1 {
+            assert(cur == prev.push(w as usize));
+            assert(cur[prev.len() as int] == w as usize);
+        }
+        assert forall|p: int| 0 < p <= w implies (cur.contains(p as usize) <==> (#[trigger] ids[p]) - ids[p - 1] != 1) by {
+            if p < w {
+                if prev.contains(p as usize) { let k = choose|k: int| 0 <= k < prev.len() && prev[k] == p as usize; assert(cur[k] == p as usize); }
+                if cur.contains(p as usize) { let k = choose|k: int| 0 <= k < cur.len() && cur[k] == p as usize; if k < prev.len() { assert(prev[k] == p as usize); } }
+            } else {
+                if cur.contains(p as usize) { let k = choose|k: int| 0 <= k < cur.len() && cur[k] == p as usize; if k < prev.len() { assert(prev[k] <= w - 1); } }
+            }
+        }
+    }
+}
+
+//@@ trusted R34: `E.windows(2).enumerate().filter_map(|(i, w)| BODY).collect()` is written as the loop std's adapters perform -- for w0 in 0..len-1 (none when len < 2): i = w0, w = &E[w0..w0+2], the value of BODY, when Some, is appended -- with BODY copied token for token; slice_window2 is `&s[w..w + 2]`. The agreement probes `verif-falsify C02.cci-session | C02.cci-receiver` run the real functions against an independent oracle (bounded)
 #[verifier::external_body]
-pub fn consecutive_chunk_indices(delivery_ids: &[u32]) -> (r: Vec<usize>)
+pub fn slice_window2<T>(s: &[T], w: usize) -> (r: &[T])
+    requires w + 2 <= s@.len(),
+    ensures r@ == s@.subrange(w as int, w + 2),
+{ &s[w..w + 2] }
+
+//@@ fn file=fe2o3-amqp/src/util/mod.rs name=is_consecutive
+//@@ spec
+    requires *left <= *right,        // (the subtraction: callers pass ids in ascending order)
+    ensures r == (*right - *left == 1),
+//@@ end
+
+//@@ fn file=fe2o3-amqp/src/session/mod.rs name=consecutive_chunk_indices
+//@@ attr #[verifier::spinoff_prover]
+//@@ param delivery_ids : &[u32]
+//@@ subst `delivery_ids .windows(2) .enumerate() .filter_map(|(__E1, __E2)| __E3) .collect()` => `{ let mut __fm_out: Vec<usize> = Vec::new(); let mut __fm_w: usize = 0; while __fm_w < delivery_ids.len().saturating_sub(1) { let __E1 = __fm_w; let __E2 = slice_window2(delivery_ids, __fm_w); let __fm_o: Option<usize> = __E3; if let Some(__fm_v) = __fm_o { __fm_out.push(__fm_v); } __fm_w += 1; } proof { reveal(chunk_positions); lemma_cp_upto(delivery_ids@, __fm_w as int); } __fm_out }` rule=R34
+//@@ spec
     requires strictly_ascending(delivery_ids@),   // is_consecutive computes right - left
     ensures
-        r@ == chunk_positions(delivery_ids@),
+        r@ == chunk_positions(delivery_ids@),                     // [C02.echo.run-boundaries] the echo list is cut exactly where the next id is not the successor of the previous one
         chunk_positions_ok(r@, delivery_ids@),
-{ unimplemented!() }
+//@@ loop 0
+        invariant
+            delivery_ids@.len() >= 1 ==> __fm_w <= delivery_ids@.len() - 1, delivery_ids@.len() == 0 ==> __fm_w == 0,
+            strictly_ascending(delivery_ids@),
+            __fm_out@ == cp_upto(delivery_ids@, __fm_w as int),                     // [C02.echo.run-boundaries]
+        decreases delivery_ids@.len() - __fm_w,
+//@@ loopstart 0
+            proof {
+                assert(delivery_ids@.subrange(__fm_w as int, __fm_w + 2)[0] == delivery_ids@[__fm_w as int]);
+                assert(delivery_ids@.subrange(__fm_w as int, __fm_w + 2)[1] == delivery_ids@[__fm_w + 1]);
+            }
+//@@ end
 
 pub proof fn lemma_disp_run_keeps_echo_sorted(s: DS, role: Role, settled: bool, state: Option<DeliveryState>, first: u32, n: nat)
     requires s.echo_ids.len() == 0, first + n <= 0x1_0000_0000,
